@@ -112,7 +112,7 @@ fn run_reassembly(r: &Reassembly) -> CaseResult {
     let mut sends: Vec<SendSpec> = Vec::new();
     for (i, p) in r.packets.iter().enumerate() {
         let (ch, mode) = if p.size == 0 { (0u8, 3u8) } else { (p.ch % 64, p.mode % 4) };
-        subs.push(Sub { idx: i as u32, tick: 0, epoch: 0, t_us: 0, ch, mode, size: p.size });
+        subs.push(Sub { seq: 0, idx: i as u32, tick: 0, epoch: 0, t_us: 0, ch, mode, size: p.size });
         sends.push(SendSpec { ch, mode, size: p.size });
     }
     let dir = DirCfg { pkt_win_log2: 12, frm_win_log2: 12, pkt_base: r.pkt_base & PKT_MASK, frm_base: r.frm_base, alloc_limit: total as u32, bw_limit: u32::MAX };
